@@ -114,14 +114,14 @@ func copyBlock(v reflect.Value, block Block) error {
 			)
 		}
 
-		if vx.Type().AssignableTo(blockType) {
+		if bx, isBlock := x.(Block); isBlock {
 			if fv.Kind() != reflect.Struct {
 				return fmt.Errorf(
 					"type mismatch for the mapped field: struct.%s has %s, block.%s is a block",
 					f.Name, f.Type, name,
 				)
 			}
-			return copyBlock(fv, x.(Block))
+			return copyBlock(fv, bx)
 		}
 
 		if st, bt := f.Type, vx.Type(); !bt.AssignableTo(st) {
@@ -162,8 +162,6 @@ fields:
 type fieldMappingErr string
 
 func (e fieldMappingErr) Error() string { return string(e) }
-
-var blockType = reflect.TypeOf(Block{})
 
 func unsnakeMatcher(snake string) func(string) bool {
 	u := strings.ReplaceAll(snake, "_", "")
